@@ -18,6 +18,10 @@ NA = {
 }
 
 CHECKS = {
+ "C16": dict(level="exploration", ref="DESIGN.md section 4 (C16)",
+   text="Seeded search over allocation histories: generated loop programs with a bounded live set (ring of slots, optional transient spikes) and random subsets of 35 kinds of per-iteration garbage, with caught injected failures at PRNG-chosen dynamic occurrences inside the loop body, run under the real threshold pacing of the release build while a monitor fed by the hook's allocation/collection event stream checks at EVERY allocation the stated byte bound (heap <= max(64 KiB, 2 x live after the previous collection) + this allocation, with byte totals recomputed from the object list) and accounting consistency, and over the history compares object counts and rooted-object counts after a final collection between N and 2N iterations, pacing liveness, and the program result against a never-collect run. A clean batch is evidence, not proof.",
+   note="Trusted: the observe-only hooks (event stream, statistics, force-collect) and the runner's monitor. The bound is on yarel's own accounting unit (shallow object sizes).",
+   technique="deterministic simulation with fault injection: invariant monitor over the allocation/collection event stream under native pacing, conservation check N vs 2N iterations, injected caught failures in the loop body"),
  "C01": dict(level="exploration", ref="DESIGN.md section 4 (C01)",
    text="The simulator owns the collection schedule: every generated heap-shape program (retention chains root -> edges -> target in which the chain is the only path to the target, over catalogues of 19 edge kinds, 17 target kinds and 18 root kinds incl. suspended/calling/dropped fibers, open captured variables, module attributes, values in flight through finally/unwinding; plus 39 operations that make the interpreter hold fresh objects mid-operation) runs under never-collect (reference), collect-at-every-allocation and a PRNG collection tape, with reclaimed objects quarantined so that every dereference of a prematurely reclaimed object and every access through an open captured variable into a reclaimed fiber stack is recorded. Oracle: zero use-after-reclaim events, identical histories across schedules, no panic. The schedule dimension is closed by dominance (collect-always sees what any schedule can see); heap shapes are sampled: evidence, not proof.",
    note="Trusted: the verif_hooks quarantine and monitor (add-only hooks in memory.rs/object.rs); a premature reclaim is only visible if the program touches the object again (every gadget reads its target back); real free() is not exercised.",
